@@ -88,6 +88,9 @@ structure BInv (X : DSetData) (c : Nat) (pre : List (Nat × Nat)) (ord : List Na
   avail : ∀ p, p ∈ pre → p.1 ≤ ord.length
   born : ∀ k, 2 ≤ k → k ≤ ord.length → ∃ p, p ∈ pre ∧ p.1 < k ∧
     ∃ x, ord[p.1 - 1]? = some x ∧ ord[k - 1]? = some (X.opU p.2 x)
+  ordp : ∀ q, q ∈ pre → ∀ y m, ord[q.1 - 1]? = some y → ord[m - 1]? = some (X.opU q.2 y) →
+    ∀ k, 2 ≤ k → k < m → ∃ p, p ∈ pre ∧ LexLt p q ∧
+      ∃ z, ord[p.1 - 1]? = some z ∧ ord[k - 1]? = some (X.opU p.2 z)
 
 theorem bfs_inv {X : DSetData} (hv : ValidSet X) (hc : Connected X) {c : Nat} :
     ∀ (rest pre : List (Nat × Nat)) (ord : List Nat),
@@ -140,11 +143,16 @@ theorem bfs_inv {X : DSetData} (hv : ValidSet X) (hc : Connected X) {c : Nat} :
       simp only [hx]
     simp only [List.foldl_cons]
     have hsplit' : loopPairs X.size X.dim = (pre ++ [(d, i)]) ++ rest := by rw [hsplit]; simp
+    have hsorted : ∀ p, p ∈ pre → LexLt p (d, i) := by
+      intro p hp
+      have hpw := pairwise_loopPairs X.size X.dim
+      rw [hsplit, List.pairwise_append] at hpw
+      exact hpw.2.2 p hp (d, i) (by simp)
     have hgoal : BInv X c (pre ++ [(d, i)]) (bfsStep X ord (d, i)) := by
       rw [hstep]
       by_cases he : X.opU i x ∈ ord
       · rw [if_pos he]
-        refine ⟨h.nodup, h.range, h.head, ?_, ?_, ?_⟩
+        refine ⟨h.nodup, h.range, h.head, ?_, ?_, ?_, ?_⟩
         · intro p hp y hy
           rcases List.mem_append.1 hp with hp | hp
           · exact h.closed p hp y hy
@@ -164,11 +172,24 @@ theorem bfs_inv {X : DSetData} (hv : ValidSet X) (hc : Connected X) {c : Nat} :
         · intro k hk2 hkl
           obtain ⟨p, hp, hpk, y, hy1, hy2⟩ := h.born k hk2 hkl
           exact ⟨p, by simp [hp], hpk, y, hy1, hy2⟩
+        · intro q hq y m hy hm k hk2 hkm
+          rcases List.mem_append.1 hq with hq | hq
+          · obtain ⟨p, hp, hlt, z, hz1, hz2⟩ := h.ordp q hq y m hy hm k hk2 hkm
+            exact ⟨p, by simp [hp], hlt, z, hz1, hz2⟩
+          · simp only [List.mem_singleton] at hq
+            subst hq
+            have hml : m - 1 < ord.length := by
+              apply Classical.byContradiction
+              intro hge
+              rw [List.getElem?_eq_none (by omega)] at hm
+              cases hm
+            obtain ⟨p, hp, _, z, hz1, hz2⟩ := h.born k hk2 (by omega)
+            exact ⟨p, by simp [hp], hsorted p hp, z, hz1, hz2⟩
       · rw [if_neg he]
         have hleft : ∀ k, k < ord.length → (ord ++ [X.opU i x])[k]? = ord[k]? := by
           intro k hk
           exact List.getElem?_append_left hk
-        refine ⟨?_, ?_, ?_, ?_, ?_, ?_⟩
+        refine ⟨?_, ?_, ?_, ?_, ?_, ?_, ?_⟩
         · rw [List.nodup_append]
           refine ⟨h.nodup, by simp, ?_⟩
           intro a ha b hb
@@ -221,6 +242,50 @@ theorem bfs_inv {X : DSetData} (hv : ValidSet X) (hc : Connected X) {c : Nat} :
             · simp only
               rw [hk, Nat.add_sub_cancel, List.getElem?_append_right (Nat.le_refl _)]
               simp
+        · intro q hq y m hy hm k hk2 hkm
+          have hq1 : ∀ q', q' ∈ pre ++ [(d, i)] → 1 ≤ q'.1 := by
+            intro q' hq'
+            have : q' ∈ loopPairs X.size X.dim := by
+              rw [hsplit']; exact List.mem_append_left _ hq'
+            exact ((mem_loopPairs _ _ _).1 this).1
+          -- the value found at position m is an old element unless q is the new position
+          rcases List.mem_append.1 hq with hq | hq
+          · have hqa := h.avail q hq
+            have hq1' := hq1 q (by simp [hq])
+            rw [hleft _ (by omega)] at hy
+            have hold := h.closed q hq y hy
+            have hml : m - 1 < ord.length := by
+              apply Classical.byContradiction
+              intro hge
+              have hmeq : m - 1 = ord.length ∨ ord.length < m - 1 := by omega
+              rcases hmeq with hmeq | hmeq
+              · rw [hmeq, List.getElem?_append_right (Nat.le_refl _)] at hm
+                simp only [Nat.sub_self, List.getElem?_cons_zero, Option.some.injEq] at hm
+                rw [hm] at he
+                exact he hold
+              · rw [List.getElem?_eq_none (by simp; omega)] at hm
+                cases hm
+            rw [hleft _ hml] at hm
+            obtain ⟨p, hp, hlt, z, hz1, hz2⟩ := h.ordp q hq y m hy hm k hk2 hkm
+            have hpa := h.avail p hp
+            have hp1 := hq1 p (by simp [hp])
+            refine ⟨p, by simp [hp], hlt, z, ?_, ?_⟩
+            · rw [hleft _ (by omega)]; exact hz1
+            · rw [hleft _ (by omega)]; exact hz2
+          · simp only [List.mem_singleton] at hq
+            subst hq
+            have hml : m - 1 < (ord ++ [X.opU i x]).length := by
+              apply Classical.byContradiction
+              intro hge
+              rw [List.getElem?_eq_none (by omega)] at hm
+              cases hm
+            simp only [List.length_append, List.length_cons, List.length_nil] at hml
+            obtain ⟨p, hp, _, z, hz1, hz2⟩ := h.born k hk2 (by omega)
+            have hpa := h.avail p hp
+            have hp1 := hq1 p (by simp [hp])
+            refine ⟨p, by simp [hp], hsorted p hp, z, ?_, ?_⟩
+            · rw [hleft _ (by omega)]; exact hz1
+            · rw [hleft _ (by omega)]; exact hz2
     have := ih (pre ++ [(d, i)]) _ hsplit' hgoal
     simpa using this
 
@@ -230,20 +295,22 @@ theorem bfsOrd_spec {X : DSetData} (hv : ValidSet X) (hc : Connected X) {c : Nat
     BInv X c (loopPairs X.size X.dim) (bfsOrd X c) ∧ (bfsOrd X c).length = X.size ∧
     ∀ x, 1 ≤ x → x ≤ X.size → x ∈ bfsOrd X c := by
   have h0 : BInv X c [] [c] := by
-    refine ⟨by simp, ?_, by simp, ?_, ?_, ?_⟩
+    refine ⟨by simp, ?_, by simp, ?_, ?_, ?_, ?_⟩
     · intro x hx; simp only [List.mem_singleton] at hx; subst hx; exact ⟨c1, c2⟩
     · intro p hp; cases hp
     · intro p hp; cases hp
     · intro k hk2 hkl; simp only [List.length_cons, List.length_nil] at hkl; omega
-  have h := bfs_inv hv hc (loopPairs X.size X.dim) [] [c] (by simp) h0
-  simp only [List.nil_append] at h
+    · intro q hq; cases hq
+  have h : BInv X c (loopPairs X.size X.dim) (bfsOrd X c) := by
+    have := bfs_inv hv hc (loopPairs X.size X.dim) [] [c] (by simp) h0
+    simp only [List.nil_append] at this
+    exact this
   have hle := length_le_of_nodup_range h.nodup h.range
   have hge : X.size ≤ (bfsOrd X c).length := by
     have hm : (X.size, 0) ∈ loopPairs X.size X.dim :=
       (mem_loopPairs _ _ _).2 ⟨by simp only; omega, Nat.le_refl _, Nat.zero_le _⟩
     exact h.avail _ hm
-  have hlen : (bfsOrd X c).length = X.size := by
-    unfold bfsOrd at hle hge ⊢; omega
+  have hlen : (bfsOrd X c).length = X.size := by omega
   refine ⟨h, hlen, ?_⟩
   -- the order is closed under the operations, hence contains every chamber
   have hcmem : c ∈ bfsOrd X c := List.mem_of_getElem? h.head
@@ -277,7 +344,9 @@ theorem renum_opU (X : DSetData) (c : Nat) {i d : Nat} (hi : i ≤ X.dim) (h1 : 
       Nat.mul_le_mul_right _ (by omega)
     rw [Nat.add_mul, Nat.one_mul] at h3
     omega
-  unfold DSetData.opU DSetData.idx renum
+  have e : (renum X c).opU i d = (renum X c).op.getD ((d - 1) * (X.dim + 1) + i) 0 := rfl
+  rw [e]
+  unfold renum
   simp only
   have hsz : (Array.ofFn (n := X.size * (X.dim + 1)) fun k =>
       newNum X c (X.opU (k.val % (X.dim + 1)) (oldCh X c (k.val / (X.dim + 1) + 1)))).size =
@@ -338,5 +407,239 @@ theorem renum_iso {X : DSetData} (hv : ValidSet X) (hc : Connected X) {c : Nat}
         subst hh
         simp
     rw [this]
+
+/-! ### transport along an isomorphism -/
+
+theorem IsoBy.opU_eq {A B : DSetData} {f g : Nat → Nat} (h : IsoBy A B f g) {i d : Nat}
+    (hi : i ≤ B.dim) (h1 : 1 ≤ d) (h2 : d ≤ B.size) : B.opU i d = f (A.opU i (g d)) := by
+  obtain ⟨g1, g2⟩ := h.g_range d h1 h2
+  rw [h.comm i (g d) (by rw [h.dim_eq]; exact hi) g1 g2, h.fg d h1 h2]
+
+theorem IsoBy.validSet {A B : DSetData} {f g : Nat → Nat} (h : IsoBy A B f g) (hA : ValidSet A)
+    (hsz : B.op.size = B.size * (B.dim + 1)) : ValidSet B := by
+  refine ⟨hsz, ?_, ?_⟩
+  · intro i d hi h1 h2
+    rw [h.opU_eq hi h1 h2]
+    obtain ⟨g1, g2⟩ := h.g_range d h1 h2
+    obtain ⟨r1, r2⟩ := hA.range i (g d) (by rw [h.dim_eq]; exact hi) g1 g2
+    exact h.f_range _ r1 r2
+  · intro i d hi h1 h2
+    have hiA : i ≤ A.dim := by rw [h.dim_eq]; exact hi
+    obtain ⟨g1, g2⟩ := h.g_range d h1 h2
+    obtain ⟨r1, r2⟩ := hA.range i (g d) hiA g1 g2
+    obtain ⟨f1, f2⟩ := h.f_range _ r1 r2
+    rw [h.opU_eq hi h1 h2, h.opU_eq hi f1 f2, h.gf _ r1 r2, hA.invol i (g d) hiA g1 g2,
+      h.fg d h1 h2]
+
+theorem IsoBy.farCommute {A B : DSetData} {f g : Nat → Nat} (h : IsoBy A B f g)
+    (hA : ValidSet A) (hf : FarCommute A) : FarCommute B := by
+  intro i j d hij hj h1 h2
+  have hjA : j ≤ A.dim := by rw [h.dim_eq]; exact hj
+  have hiA : i ≤ A.dim := by omega
+  have hiB : i ≤ B.dim := by omega
+  obtain ⟨g1, g2⟩ := h.g_range d h1 h2
+  obtain ⟨a1, a2⟩ := hA.range i (g d) hiA g1 g2
+  obtain ⟨b1, b2⟩ := hA.range j (g d) hjA g1 g2
+  obtain ⟨fa1, fa2⟩ := h.f_range _ a1 a2
+  obtain ⟨fb1, fb2⟩ := h.f_range _ b1 b2
+  rw [h.opU_eq hiB h1 h2, h.opU_eq hj h1 h2, h.opU_eq hj fa1 fa2, h.opU_eq hiB fb1 fb2,
+    h.gf _ a1 a2, h.gf _ b1 b2, hf i j (g d) hij hjA g1 g2]
+
+theorem IsoBy.comp {A B C : DSetData} {f g f' g' : Nat → Nat} (h1 : IsoBy A B f g)
+    (h2 : IsoBy B C f' g') : IsoBy A C (f' ∘ f) (g ∘ g') := by
+  refine ⟨h1.size_eq.trans h2.size_eq, h1.dim_eq.trans h2.dim_eq, ?_, ?_, ?_, ?_, ?_⟩
+  · intro d a b
+    obtain ⟨x1, x2⟩ := h1.f_range d a b
+    exact h2.f_range _ x1 x2
+  · intro d a b
+    obtain ⟨x1, x2⟩ := h2.g_range d a b
+    exact h1.g_range _ x1 x2
+  · intro d a b
+    obtain ⟨x1, x2⟩ := h1.f_range d a b
+    simp only [Function.comp]
+    rw [h2.gf _ x1 x2, h1.gf d a b]
+  · intro d a b
+    obtain ⟨x1, x2⟩ := h2.g_range d a b
+    simp only [Function.comp]
+    rw [h1.fg _ x1 x2, h2.fg d a b]
+  · intro i d hi a b
+    obtain ⟨x1, x2⟩ := h1.f_range d a b
+    simp only [Function.comp]
+    rw [h1.comm i d hi a b, h2.comm i _ (by rw [← h1.dim_eq]; exact hi) x1 x2]
+
+/-! ### the renumbered set is a valid, orderly, linked copy -/
+
+theorem renum_props {X : DSetData} (hv : ValidSet X) (hf : FarCommute X) (hc : Connected X)
+    {c : Nat} (c1 : 1 ≤ c) (c2 : c ≤ X.size) :
+    ValidSet (renum X c) ∧ FarCommute (renum X c) ∧ Linked (renum X c) ∧ Orderly (renum X c) := by
+  obtain ⟨hb, hlen, hall⟩ := bfsOrd_spec hv hc c1 c2
+  obtain ⟨hiso, _⟩ := renum_iso hv hc c1 c2
+  have hsz : (renum X c).op.size = (renum X c).size * ((renum X c).dim + 1) := by
+    show (Array.ofFn _).size = X.size * (X.dim + 1)
+    exact Array.size_ofFn
+  have hV := hiso.validSet hv hsz
+  -- the order list read through `oldCh`
+  have hget : ∀ k, 1 ≤ k → k ≤ X.size → (bfsOrd X c)[k - 1]? = some (oldCh X c k) := by
+    intro k k1 k2
+    have hlt : k - 1 < (bfsOrd X c).length := by omega
+    unfold oldCh
+    rw [List.getD_eq_getElem?_getD, List.getElem?_eq_getElem hlt]; rfl
+  -- a scan position whose image was appended as number k holds k in the new table
+  have hval : ∀ p k, p ∈ loopPairs X.size X.dim → 1 ≤ k → k ≤ X.size →
+      (∃ z, (bfsOrd X c)[p.1 - 1]? = some z ∧ (bfsOrd X c)[k - 1]? = some (X.opU p.2 z)) →
+      (renum X c).opU p.2 p.1 = k := by
+    intro p k hp k1 k2 hz
+    obtain ⟨z, hz1, hz2⟩ := hz
+    obtain ⟨p1, p2, p3⟩ := (mem_loopPairs _ _ _).1 hp
+    rw [hget p.1 p1 p2] at hz1
+    injection hz1 with hz1
+    rw [hget k k1 k2] at hz2
+    injection hz2 with hz2
+    rw [renum_opU X c p3 p1 p2, hz1, ← hz2]
+    exact hiso.fg k k1 k2
+  refine ⟨hV, hiso.farCommute hv hf, ?_, ?_⟩
+  · -- linked
+    intro k hk2 hkn
+    have hkn' : k ≤ X.size := hkn
+    obtain ⟨p, hp, hpk, z, hz1, hz2⟩ := hb.born k hk2 (by omega)
+    obtain ⟨p1, p2, p3⟩ := (mem_loopPairs _ _ _).1 hp
+    have hpv := hval p k hp (by omega) hkn' ⟨z, hz1, hz2⟩
+    refine ⟨p.2, p3, ?_⟩
+    have := hV.invol p.2 p.1 p3 p1 p2
+    rw [hpv] at this
+    rw [this]
+    exact ⟨p1, hpk⟩
+  · -- orderly
+    intro i d hi h1 h2 v hv2 hvw
+    have hq : (d, i) ∈ loopPairs X.size X.dim := (mem_loopPairs _ _ _).2 ⟨h1, h2, hi⟩
+    obtain ⟨w1, w2⟩ := hV.range i d hi h1 h2
+    have hw2 : (renum X c).opU i d ≤ X.size := w2
+    -- the entry at (d, i), as a number m
+    have hm : (bfsOrd X c)[(renum X c).opU i d - 1]? = some (X.opU i (oldCh X c d)) := by
+      rw [hget _ w1 hw2, renum_opU X c hi h1 h2]
+      obtain ⟨g1, g2⟩ := hiso.g_range d h1 h2
+      obtain ⟨r1, r2⟩ := hv.range i _ hi g1 g2
+      rw [hiso.gf _ r1 r2]
+    obtain ⟨p, hp, hlt, z, hz1, hz2⟩ := hb.ordp (d, i) hq (oldCh X c d) _ (hget d h1 h2) hm v hv2 hvw
+    obtain ⟨p1, p2, p3⟩ := (mem_loopPairs _ _ _).1 hp
+    refine ⟨p.2, p.1, p3, p1, p2, ?_, hval p v hp (by omega) (by omega) ⟨z, hz1, hz2⟩⟩
+    unfold LexLt at hlt
+    unfold Before
+    simp only at hlt ⊢
+    exact hlt
+
+/-! ### a least renumbering -/
+
+theorem firstDiff_self (A : DSetData) : ∀ l, firstDiff A A l = 0 := by
+  intro l
+  induction l with
+  | nil => rfl
+  | cons p l ih => obtain ⟨d, i⟩ := p; simp [firstDiff, ih]
+
+theorem firstDiff_trans (A B C : DSetData) : ∀ l, firstDiff A B l ≤ 0 → firstDiff B C l ≤ 0 →
+    firstDiff A C l ≤ 0 := by
+  intro l
+  induction l with
+  | nil => intro _ _; simp [firstDiff]
+  | cons p l ih =>
+    obtain ⟨d, i⟩ := p
+    intro h1 h2
+    simp only [firstDiff] at h1 h2 ⊢
+    by_cases hab : A.opU i d = B.opU i d
+    · rw [if_neg (by simp [hab])] at h1
+      by_cases hbc : B.opU i d = C.opU i d
+      · rw [if_neg (by simp [hbc])] at h2
+        rw [if_neg (by simp [hab, hbc])]
+        exact ih h1 h2
+      · rw [if_pos hbc] at h2
+        have : A.opU i d ≠ C.opU i d := by rw [hab]; exact hbc
+        rw [if_pos this]
+        omega
+    · rw [if_pos hab] at h1
+      by_cases hbc : B.opU i d = C.opU i d
+      · have : A.opU i d ≠ C.opU i d := by rw [← hbc]; exact hab
+        rw [if_pos this]
+        omega
+      · rw [if_pos hbc] at h2
+        have : A.opU i d ≠ C.opU i d := by omega
+        rw [if_pos this]
+        omega
+
+/-- a nonempty list of tables has a lexicographically least member -/
+theorem exists_least (l : List (Nat × Nat)) : ∀ (Ts : List DSetData), Ts ≠ [] →
+    ∃ T, T ∈ Ts ∧ ∀ T', T' ∈ Ts → firstDiff T T' l ≤ 0 := by
+  intro Ts
+  induction Ts with
+  | nil => intro h; exact absurd rfl h
+  | cons T Ts ih =>
+    intro _
+    by_cases hTs : Ts = []
+    · subst hTs
+      refine ⟨T, by simp, ?_⟩
+      intro T' hT'
+      simp only [List.mem_singleton] at hT'
+      subst hT'
+      rw [firstDiff_self]; exact Int.le_refl _
+    · obtain ⟨m, hm, hmin⟩ := ih hTs
+      by_cases hle : firstDiff T m l ≤ 0
+      · refine ⟨T, by simp, ?_⟩
+        intro T' hT'
+        rcases List.mem_cons.1 hT' with rfl | hT'
+        · rw [firstDiff_self]; exact Int.le_refl _
+        · exact firstDiff_trans T m T' l hle (hmin T' hT')
+      · refine ⟨m, by simp [hm], ?_⟩
+        intro T' hT'
+        rcases List.mem_cons.1 hT' with hT'' | hT'
+        · rw [hT'', firstDiff_neg T m]; omega
+        · exact hmin T' hT'
+
+/-- **Every isomorphism class of connected complete D-sets with commuting far operations
+    contains an orderly canonical member**: the lexicographically least breadth-first
+    renumbering. -/
+theorem exists_canonical {X : DSetData} {maxSize : Nat} (hv : ValidSet X) (hf : FarCommute X)
+    (hc : Connected X) (h1 : 1 ≤ X.size) (hsz : X.size ≤ maxSize) :
+    ∃ T f g, IsoBy X T f g ∧ ValidSet T ∧ FarCommute T ∧ Connected T ∧ Orderly T ∧
+      Canonical T maxSize := by
+  let L := loopPairs X.size X.dim
+  obtain ⟨T, hT, hmin⟩ := exists_least L ((List.range' 1 X.size).map (renum X)) (by
+    intro h
+    have := congrArg List.length h
+    simp at this
+    omega)
+  obtain ⟨cs, hcs, rfl⟩ := List.mem_map.1 hT
+  have hcr := List.mem_range'_1.1 hcs
+  have cs1 : 1 ≤ cs := hcr.1
+  have cs2 : cs ≤ X.size := by omega
+  obtain ⟨hTV, hTF, hTL, hTO⟩ := renum_props hv hf hc cs1 cs2
+  obtain ⟨isoT, _⟩ := renum_iso hv hc cs1 cs2
+  refine ⟨renum X cs, _, _, isoT, hTV, hTF, connected_of_linked hTV.toPartial hTL, hTO, ?_⟩
+  intro d0 hd2 hdn v hcmp
+  have hdn' : d0 ≤ X.size := hdn
+  -- the renumbering from the chamber that has number d0
+  obtain ⟨c1', c2', _⟩ : 1 ≤ oldCh X cs d0 ∧ oldCh X cs d0 ≤ X.size ∧ True := by
+    obtain ⟨a, b⟩ := isoT.g_range d0 (by omega) hdn'
+    exact ⟨a, b, trivial⟩
+  generalize hc' : oldCh X cs d0 = c' at *
+  obtain ⟨hAV, _, hAL, hAO⟩ := renum_props hv hf hc c1' c2'
+  obtain ⟨isoA, hA1⟩ := renum_iso hv hc c1' c2'
+  have iso := (isoA.symm hv).comp isoT
+  have hf1 : (newNum X cs ∘ oldCh X c') 1 = d0 := by
+    simp only [Function.comp]
+    have : oldCh X c' 1 = c' := by
+      have := isoA.gf c' c1' c2'
+      rw [hA1] at this
+      exact this
+    rw [this, ← hc']
+    exact isoT.fg d0 (by omega) hdn'
+  have key := compare_iso (maxSize := maxSize) hAV hTV hAO hAL iso (by
+    show X.size ≤ maxSize; exact hsz) (by show 1 ≤ X.size; exact h1)
+  rw [hf1] at key
+  rw [key] at hcmp
+  injection hcmp with hcmp
+  have hle := hmin (renum X c') (List.mem_map.2 ⟨c', List.mem_range'_1.2 (by omega), rfl⟩)
+  have hneg := firstDiff_neg (renum X cs) (renum X c') L
+  have hL : loopPairs (renum X cs).size (renum X cs).dim = L := rfl
+  rw [hL] at hcmp
+  omega
 
 end DSymVerif.DSG
